@@ -398,6 +398,20 @@ func c17effect(p *core.Prog, g, perCall, eff, fold *ssa.Function, doNew map[stri
 					okErr = true
 				}
 			}
+			// or through a helper that builds the failure response from the error it is given
+			if call, isC := ins.(*ssa.Call); isC && serErrEdge(call.Block()) {
+				if h := core.Callee(&call.Call); h != nil && p.InRepo(h) {
+					for i, a := range call.Call.Args {
+						if ex, isE := a.(*ssa.Extract); isE && ex.Tuple == ssa.Value(ser) && i < len(h.Params) {
+							core.Instrs(h, func(i2 ssa.Instruction) {
+								if st, isS := i2.(*ssa.Store); isS && core.FieldKey(st.Addr) == "ResponseWithError.Err" && st.Val == ssa.Value(h.Params[i]) {
+									okErr = true
+								}
+							})
+						}
+					}
+				}
+			}
 		})
 		if !okErr {
 			return false, "a serializer error is not returned as Err on the response"
@@ -410,24 +424,37 @@ func c17effect(p *core.Prog, g, perCall, eff, fold *ssa.Function, doNew map[stri
 func c17decodeGuard(p *core.Prog, eff *ssa.Function) (bool, string) {
 	n := 0
 	ok := true
-	core.Instrs(eff, func(ins ssa.Instruction) {
-		call, isC := ins.(*ssa.Call)
-		if !isC {
-			return
-		}
-		if g := core.Callee(&call.Call); g != nil && g.Name() == "decodeResponseBody" {
-			n++
-			guarded := false
-			for _, m := range core.EdgeCmps(call.Block()) {
-				if m.Op == token.EQL && core.IsNilConst(m.Y) && core.FieldKey(m.X) == "ResponseWithError.Err" {
-					guarded = true
+	check := func(f *ssa.Function) {
+		core.Instrs(f, func(ins ssa.Instruction) {
+			call, isC := ins.(*ssa.Call)
+			if !isC {
+				return
+			}
+			if g := core.Callee(&call.Call); g != nil && core.FuncName(g) == "network.decodeResponseBody" {
+				n++
+				guarded := false
+				for _, m := range core.EdgeCmps(call.Block()) {
+					if m.Op == token.EQL && core.IsNilConst(m.Y) && core.FieldKey(m.X) == "ResponseWithError.Err" {
+						guarded = true
+					}
+				}
+				if !guarded {
+					ok = false
 				}
 			}
-			if !guarded {
-				ok = false
+		})
+	}
+	check(eff)
+	if n == 0 {
+		// the guard and the decode may have been extracted together into a helper
+		core.Instrs(eff, func(ins ssa.Instruction) {
+			if call, isC := ins.(*ssa.Call); isC {
+				if g := core.Callee(&call.Call); g != nil && p.InRepo(g) && g.Signature.Recv() == nil && core.FuncName(g) != "network.decodeResponseBody" {
+					check(g)
+				}
 			}
-		}
-	})
+		})
+	}
 	if n == 0 {
 		return false, "the effect never decodes the response body into the target"
 	}
